@@ -1,0 +1,338 @@
+//go:build verif
+
+// Contracts for package ons (action handlers): C20 domain names, C02/C03 payments, C04 signatures, C18 division.
+// Comment-only file, read by /verif/govc.
+
+package ons
+
+// ---------------------------------------------------------------- expiry arithmetic (C20 "exactly the number of blocks the payment buys", C18)
+
+//@ func calculateExpiry
+//@   safety C18
+//@   requires buyingPrice != nil && basePrice != nil && pricePerBlock != nil                                 // C18.nil-amount
+//@   requires big(pricePerBlock) > 0                                                                        // C18.div-zero
+//@   modifies nothing
+//@   ensures (err == nil) == (big(buyingPrice) >= big(basePrice))                                           // C20.expiry
+//@   ensures err == nil ==> result0 == wrap64((big(buyingPrice) - big(basePrice)) / big(pricePerBlock))     // C20.expiry-int64
+//@   ensures err == nil && (big(buyingPrice) - big(basePrice)) / big(pricePerBlock) <= 9223372036854775807 ==> result0 == (big(buyingPrice) - big(basePrice)) / big(pricePerBlock)   // C20.expiry-int64
+// the property's clause ("exactly the number of blocks the payment buys"): false when the quotient does not fit int64,
+// big.Int.Int64() keeps the low 64 bits: buyingPrice - basePrice = 2^63 * pricePerBlock gives -9223372036854775808 blocks
+//@   claims err == nil ==> result0 == (big(buyingPrice) - big(basePrice)) / big(pricePerBlock)              // C20.expiry
+
+//@ func calculateRenewal
+//@   safety C18
+//@   requires buyingPrice != nil && pricePerBlock != nil                                                    // C18.nil-amount
+//@   requires big(pricePerBlock) > 0                                                                        // C18.div-zero
+//@   modifies nothing
+//@   ensures (err == nil) == (big(buyingPrice) >= big(pricePerBlock))                                       // C20.expiry
+//@   ensures err == nil ==> result0 == wrap64(big(buyingPrice) / big(pricePerBlock))                        // C20.expiry-int64
+//@   ensures err == nil && big(buyingPrice) / big(pricePerBlock) <= 9223372036854775807 ==> result0 == big(buyingPrice) / big(pricePerBlock) && result0 >= 1   // C20.expiry-int64
+//@   claims err == nil ==> result0 == big(buyingPrice) / big(pricePerBlock)                                 // C20.expiry
+
+// ---------------------------------------------------------------- DOMAIN_SEND (C02, C03, C04, C20)
+
+//@ func (domainSendTx).Validate
+//@   implements action.Tx
+//@   ensures result0 ==> len(tx.Signatures) == 1 && sigOK(rawBytesOf(tx.RawTx), unm(tx.Data, "DomainSend").From, tx.Signatures[0])   // C04.validate
+//@   exports len(sigs) == 1                                                                                                   // C04.validated-facts
+//@   exports raw.Fee.Price.Currency == ctx.FeePool.feeOpt.FeeCurrency.Name && raw.Fee.Price.Value >= 0                        // C04.validated-facts
+
+//@ func (domainSendTx).ProcessCheck
+//@   implements action.Tx
+//@   assumes domOK(ctx.Domains)                                                                                               // C20.store-invariant inductive: every ons body ensures it on success (failed transactions are discarded); genesis records assumed to satisfy it
+//@ func (domainSendTx).ProcessDeliver
+//@   implements action.Tx
+//@   assumes domOK(ctx.Domains)                                                                                               // C20.store-invariant inductive: every ons body ensures it on success (failed transactions are discarded); genesis records assumed to satisfy it
+//@ func (domainSendTx).ProcessFee
+//@   implements action.Tx
+
+// the name's beneficiary on the entry state receives exactly what the signer pays; the record is not touched
+//@ func runDomainSend
+//@   requires onsCtx(ctx)                                                                                                     // C18.ctx
+//@   requires wfState(ctx.State) && sessOpen(ctx.State)                                                                       // C06.session
+//@   requires domOK(ctx.Domains)                                                                                              // C20.store-invariant
+//@   ensures result0 ==> domOK(ctx.Domains)                                                                                   // C20.store-invariant
+//@   ensures result0 ==> old(domHas(ctx.Domains))[unm(tx.Data, "DomainSend").Name] && old(dom(ctx.Domains))[unm(tx.Data, "DomainSend").Name].ActiveFlag && unm(tx.Data, "DomainSend").Amount.Value >= 0   // C20.send-guard
+//@   ensures result0 && balKey(unm(tx.Data, "DomainSend").From, unm(tx.Data, "DomainSend").Amount.Currency) != balKey(old(dom(ctx.Domains))[unm(tx.Data, "DomainSend").Name].Beneficiary, unm(tx.Data, "DomainSend").Amount.Currency)
+//@       ==> bal(ctx.Balances)[balKey(unm(tx.Data, "DomainSend").From, unm(tx.Data, "DomainSend").Amount.Currency)] == old(bal(ctx.Balances))[balKey(unm(tx.Data, "DomainSend").From, unm(tx.Data, "DomainSend").Amount.Currency)] - unm(tx.Data, "DomainSend").Amount.Value
+//@        && bal(ctx.Balances)[balKey(old(dom(ctx.Domains))[unm(tx.Data, "DomainSend").Name].Beneficiary, unm(tx.Data, "DomainSend").Amount.Currency)] == old(bal(ctx.Balances))[balKey(old(dom(ctx.Domains))[unm(tx.Data, "DomainSend").Name].Beneficiary, unm(tx.Data, "DomainSend").Amount.Currency)] + unm(tx.Data, "DomainSend").Amount.Value   // C20.send-pays-beneficiary
+//@   ensures result0 ==> forall k string :: k != balKey(unm(tx.Data, "DomainSend").From, unm(tx.Data, "DomainSend").Amount.Currency) && k != balKey(old(dom(ctx.Domains))[unm(tx.Data, "DomainSend").Name].Beneficiary, unm(tx.Data, "DomainSend").Amount.Currency) ==> bal(ctx.Balances)[k] == old(bal(ctx.Balances))[k]   // C02.others-untouched
+//@   ensures result0 ==> forall k string :: bal(ctx.Balances)[k] < old(bal(ctx.Balances))[k] ==> k == balKey(unm(tx.Data, "DomainSend").From, unm(tx.Data, "DomainSend").Amount.Currency)   // C03.only-signer-debited
+//@   ensures result0 ==> forall c string :: balTotal(ctx.Balances)[c] == old(balTotal(ctx.Balances))[c]                        // C02.conserve
+//@   ensures domHas(ctx.Domains) == old(domHas(ctx.Domains)) && dom(ctx.Domains) == old(dom(ctx.Domains)) && domPrice(ctx.Domains) == old(domPrice(ctx.Domains))   // C20.record-unchanged
+
+// ---------------------------------------------------------------- shared vocabulary
+//
+// onsCtx(ctx): what the ons bodies need from the context = action.ctxOK (which includes: the domain store reads and writes the
+// transaction's State, header and governance store are present)
+//@ ghost func onsCtx(ctx *action.Context) bool = ctxOK(ctx)
+// idFields: the fields no transaction other than a purchase may change
+//@ ghost func idFields(a ons.Domain, b ons.Domain) bool = a.Owner == b.Owner && a.Name == b.Name && a.CreationHeight == b.CreationHeight
+// sameButHeights(a, b): records equal except for ExpireHeight / LastUpdateHeight (the SalePrice pointer compared by nil-ness; its value is domPrice)
+//@ ghost func sameButHeights(a ons.Domain, b ons.Domain) bool = a.Owner == b.Owner && a.Beneficiary == b.Beneficiary && a.Name == b.Name && a.CreationHeight == b.CreationHeight && a.ActiveFlag == b.ActiveFlag && a.OnSaleFlag == b.OnSaleFlag && a.URI == b.URI && (a.SalePrice == nil) == (b.SalePrice == nil)
+// payCurOK(ctx, cur): validated-facts shorthand — the payment is in the default currency (id 0); that it is also the fee currency is A-GENESIS
+//@ ghost func payCurOK(ctx *action.Context, cur string) bool = has(ctx.Currencies.idMap, 0) && cur == ctx.Currencies.idMap[0].Name
+
+// ---------------------------------------------------------------- DOMAIN_SELL (C20 owner-only, C04)
+
+//@ func (domainSaleTx).Validate
+//@   implements action.Tx
+//@   ensures result0 ==> len(tx.Signatures) == 1 && sigOK(rawBytesOf(tx.RawTx), unm(tx.Data, "DomainSale").OwnerAddress, tx.Signatures[0])   // C04.validate
+//@   exports len(sigs) == 1                                                                                                   // C04.validated-facts
+//@   exports raw.Fee.Price.Currency == ctx.FeePool.feeOpt.FeeCurrency.Name && raw.Fee.Price.Value >= 0                        // C04.validated-facts
+
+//@ func (domainSaleTx).ProcessCheck
+//@   implements action.Tx
+//@   assumes domOK(ctx.Domains)                                                                                               // C20.store-invariant inductive: every ons body ensures it on success (failed transactions are discarded); genesis records assumed to satisfy it
+//@ func (domainSaleTx).ProcessDeliver
+//@   implements action.Tx
+//@   assumes domOK(ctx.Domains)                                                                                               // C20.store-invariant inductive: every ons body ensures it on success (failed transactions are discarded); genesis records assumed to satisfy it
+//@ func (domainSaleTx).ProcessFee
+//@   implements action.Tx
+
+//@ func runDomainSale
+//@   requires onsCtx(ctx)                                                                                                     // C18.ctx
+//@   requires wfState(ctx.State) && sessOpen(ctx.State)                                                                       // C06.session
+//@   requires domOK(ctx.Domains)                                                                                              // C20.store-invariant
+//@   ensures result0 ==> domOK(ctx.Domains)                                                                                   // C20.store-invariant
+//@   ensures result0 ==> old(domHas(ctx.Domains))[unm(tx.Data, "DomainSale").Name]                                            // C20.owner-only
+//@   ensures result0 ==> str(old(dom(ctx.Domains))[unm(tx.Data, "DomainSale").Name].Owner) == str(unm(tx.Data, "DomainSale").OwnerAddress)   // C20.owner-only
+//@   ensures result0 ==> domHas(ctx.Domains)[unm(tx.Data, "DomainSale").Name] && idFields(dom(ctx.Domains)[unm(tx.Data, "DomainSale").Name], old(dom(ctx.Domains))[unm(tx.Data, "DomainSale").Name])   // C20.record-frame
+//@   ensures result0 ==> dom(ctx.Domains)[unm(tx.Data, "DomainSale").Name].Beneficiary == old(dom(ctx.Domains))[unm(tx.Data, "DomainSale").Name].Beneficiary && dom(ctx.Domains)[unm(tx.Data, "DomainSale").Name].ExpireHeight == old(dom(ctx.Domains))[unm(tx.Data, "DomainSale").Name].ExpireHeight && dom(ctx.Domains)[unm(tx.Data, "DomainSale").Name].URI == old(dom(ctx.Domains))[unm(tx.Data, "DomainSale").Name].URI   // C20.record-frame
+//@   ensures result0 && !unm(tx.Data, "DomainSale").CancelSale ==> dom(ctx.Domains)[unm(tx.Data, "DomainSale").Name].OnSaleFlag && dom(ctx.Domains)[unm(tx.Data, "DomainSale").Name].SalePrice != nil && domPrice(ctx.Domains)[unm(tx.Data, "DomainSale").Name] == unm(tx.Data, "DomainSale").Price.Value   // C20.sale-status
+//@   ensures result0 && unm(tx.Data, "DomainSale").CancelSale ==> !dom(ctx.Domains)[unm(tx.Data, "DomainSale").Name].OnSaleFlag && dom(ctx.Domains)[unm(tx.Data, "DomainSale").Name].SalePrice == nil   // C20.sale-status
+//@   ensures result0 ==> forall n string :: n != unm(tx.Data, "DomainSale").Name ==> domHas(ctx.Domains)[n] == old(domHas(ctx.Domains))[n] && dom(ctx.Domains)[n] == old(dom(ctx.Domains))[n] && domPrice(ctx.Domains)[n] == old(domPrice(ctx.Domains))[n]   // C20.others-untouched
+//@   ensures bal(ctx.Balances) == old(bal(ctx.Balances))                                                                      // C03.no-debit
+
+// ---------------------------------------------------------------- DOMAIN_DELETE_SUB (C20: only the parent's owner deletes sub-domains)
+
+// delParent(n): the name whose owner must sign a delete-sub of n
+//@ ghost func delParent(n string) string = nameIsSub(n) ? parentOf(n) : n
+
+//@ func (deleteSubTx).Validate
+//@   implements action.Tx
+//@   ensures result0 ==> len(signedTx.Signatures) == 1 && sigOK(rawBytesOf(signedTx.RawTx), unm(signedTx.Data, "DeleteSub").Owner, signedTx.Signatures[0])   // C04.validate
+//@   exports len(sigs) == 1                                                                                                   // C04.validated-facts
+//@   exports raw.Fee.Price.Currency == ctx.FeePool.feeOpt.FeeCurrency.Name && raw.Fee.Price.Value >= 0                        // C04.validated-facts
+
+//@ func (deleteSubTx).ProcessCheck
+//@   implements action.Tx
+//@   assumes domOK(ctx.Domains)                                                                                               // C20.store-invariant inductive: every ons body ensures it on success (failed transactions are discarded); genesis records assumed to satisfy it
+//@ func (deleteSubTx).ProcessDeliver
+//@   implements action.Tx
+//@   assumes domOK(ctx.Domains)                                                                                               // C20.store-invariant inductive: every ons body ensures it on success (failed transactions are discarded); genesis records assumed to satisfy it
+//@ func (deleteSubTx).ProcessFee
+//@   implements action.Tx
+
+//@ func runDeleteSub
+//@   requires onsCtx(ctx)                                                                                                     // C18.ctx
+//@   requires wfState(ctx.State) && sessOpen(ctx.State)                                                                       // C06.session
+//@   requires domOK(ctx.Domains)                                                                                              // C20.store-invariant
+//@   ensures result0 ==> domOK(ctx.Domains)                                                                                   // C20.store-invariant
+//@   ensures result0 ==> old(domHas(ctx.Domains))[delParent(unm(tx.Data, "DeleteSub").Name)] && str(old(dom(ctx.Domains))[delParent(unm(tx.Data, "DeleteSub").Name)].Owner) == str(unm(tx.Data, "DeleteSub").Owner)   // C20.owner-only
+//@   ensures result0 && nameIsSub(unm(tx.Data, "DeleteSub").Name) ==> old(domHas(ctx.Domains))[unm(tx.Data, "DeleteSub").Name] && !domHas(ctx.Domains)[unm(tx.Data, "DeleteSub").Name]   // C20.delete-sub
+//@   ensures result0 && nameIsSub(unm(tx.Data, "DeleteSub").Name) ==> forall n string :: n != unm(tx.Data, "DeleteSub").Name ==> domHas(ctx.Domains)[n] == old(domHas(ctx.Domains))[n]   // C20.others-untouched
+//@   ensures result0 && !nameIsSub(unm(tx.Data, "DeleteSub").Name) ==> forall n string :: !subOf(n, unm(tx.Data, "DeleteSub").Name) ==> domHas(ctx.Domains)[n] == old(domHas(ctx.Domains))[n]   // C20.others-untouched
+// FINDING: sub-domains created earlier in the same block are not enumerated (see data/ons DeleteAllSubdomains) and survive
+//@   claims result0 && !nameIsSub(unm(tx.Data, "DeleteSub").Name) ==> forall n string :: subOf(n, unm(tx.Data, "DeleteSub").Name) ==> !domHas(ctx.Domains)[n]   // C20.subs-deleted
+//@   ensures dom(ctx.Domains) == old(dom(ctx.Domains)) && domPrice(ctx.Domains) == old(domPrice(ctx.Domains))                 // C20.record-unchanged
+//@   ensures bal(ctx.Balances) == old(bal(ctx.Balances))                                                                      // C03.no-debit
+
+// ---------------------------------------------------------------- DOMAIN_RENEW (C20 owner-only + expiry, C02/C03 payment, C04)
+
+//@ func (RenewDomainTx).Validate
+//@   implements action.Tx
+//@   ensures result0 ==> len(signedTx.Signatures) == 1 && sigOK(rawBytesOf(signedTx.RawTx), unm(signedTx.Data, "RenewDomain").Owner, signedTx.Signatures[0])   // C04.validate
+//@   exports len(sigs) == 1                                                                                                   // C04.validated-facts
+//@   exports raw.Fee.Price.Currency == ctx.FeePool.feeOpt.FeeCurrency.Name && raw.Fee.Price.Value >= 0                        // C04.validated-facts
+//@   exports payCurOK(ctx, unm(raw.Data, "RenewDomain").BuyingPrice.Currency)                                                // C20.validated-facts
+
+//@ func (RenewDomainTx).ProcessCheck
+//@   implements action.Tx
+//@   assumes domOK(ctx.Domains)                                                                                               // C20.store-invariant inductive: every ons body ensures it on success (failed transactions are discarded); genesis records assumed to satisfy it
+//@ func (RenewDomainTx).ProcessDeliver
+//@   implements action.Tx
+//@   assumes domOK(ctx.Domains)                                                                                               // C20.store-invariant inductive: every ons body ensures it on success (failed transactions are discarded); genesis records assumed to satisfy it
+//@ func (RenewDomainTx).ProcessFee
+//@   implements action.Tx
+
+//@ func runRenew
+//@   safety C18
+//@   requires onsCtx(ctx)                                                                                                     // C18.ctx
+//@   requires wfState(ctx.State) && sessOpen(ctx.State)                                                                       // C06.session
+//@   requires domOK(ctx.Domains)                                                                                              // C20.store-invariant
+//@   ensures result0 ==> domOK(ctx.Domains)                                                                                   // C20.store-invariant
+//@   requires payCurOK(ctx, unm(tx.Data, "RenewDomain").BuyingPrice.Currency)                                                // C20.validated-facts
+//@   assumes ctx.FeePool.feeOpt.FeeCurrency.Name == ctx.Currencies.idMap[0].Name                                             // A-GENESIS the fee currency is the default currency (id 0)
+//@   ensures result0 ==> old(domHas(ctx.Domains))[unm(tx.Data, "RenewDomain").Name] && str(old(dom(ctx.Domains))[unm(tx.Data, "RenewDomain").Name].Owner) == str(unm(tx.Data, "RenewDomain").Owner)   // C20.owner-only
+//@   ensures result0 ==> unm(tx.Data, "RenewDomain").BuyingPrice.Value > onsPer(ctx.GovernanceStore) && bal(ctx.Balances)[balKey(unm(tx.Data, "RenewDomain").Owner, unm(tx.Data, "RenewDomain").BuyingPrice.Currency)] == old(bal(ctx.Balances))[balKey(unm(tx.Data, "RenewDomain").Owner, unm(tx.Data, "RenewDomain").BuyingPrice.Currency)] - unm(tx.Data, "RenewDomain").BuyingPrice.Value   // C02.renew-paid
+//@   ensures result0 ==> forall k string :: k != balKey(unm(tx.Data, "RenewDomain").Owner, unm(tx.Data, "RenewDomain").BuyingPrice.Currency) ==> bal(ctx.Balances)[k] == old(bal(ctx.Balances))[k]   // C03.only-signer-debited
+//@   ensures result0 ==> balTotal(ctx.Balances)[unm(tx.Data, "RenewDomain").BuyingPrice.Currency] == old(balTotal(ctx.Balances))[unm(tx.Data, "RenewDomain").BuyingPrice.Currency] - unm(tx.Data, "RenewDomain").BuyingPrice.Value && feeTotal(ctx.FeePool) == old(feeTotal(ctx.FeePool)) + unm(tx.Data, "RenewDomain").BuyingPrice.Value && (forall c string :: c != unm(tx.Data, "RenewDomain").BuyingPrice.Currency ==> balTotal(ctx.Balances)[c] == old(balTotal(ctx.Balances))[c])   // C02.conserve
+//@   ensures result0 ==> fee(ctx.FeePool)["00000000000000000000"] == old(fee(ctx.FeePool))["00000000000000000000"] + unm(tx.Data, "RenewDomain").BuyingPrice.Value   // C02.renew-paid
+//@   ensures result0 ==> domHas(ctx.Domains)[unm(tx.Data, "RenewDomain").Name] && sameButHeights(dom(ctx.Domains)[unm(tx.Data, "RenewDomain").Name], old(dom(ctx.Domains))[unm(tx.Data, "RenewDomain").Name]) && (dom(ctx.Domains)[unm(tx.Data, "RenewDomain").Name].SalePrice != nil ==> domPrice(ctx.Domains)[unm(tx.Data, "RenewDomain").Name] == old(domPrice(ctx.Domains))[unm(tx.Data, "RenewDomain").Name])   // C20.record-frame
+//@   ensures result0 ==> dom(ctx.Domains)[unm(tx.Data, "RenewDomain").Name].ExpireHeight == wrap64(old(dom(ctx.Domains))[unm(tx.Data, "RenewDomain").Name].ExpireHeight + wrap64(unm(tx.Data, "RenewDomain").BuyingPrice.Value / onsPer(ctx.GovernanceStore)))   // C20.expiry-int64
+// FINDING: int64 truncation of the quotient and wrapping of the sum (per-block fee 1, payment >= 2^63 - current expiry)
+//@   claims result0 ==> dom(ctx.Domains)[unm(tx.Data, "RenewDomain").Name].ExpireHeight == old(dom(ctx.Domains))[unm(tx.Data, "RenewDomain").Name].ExpireHeight + unm(tx.Data, "RenewDomain").BuyingPrice.Value / onsPer(ctx.GovernanceStore)   // C20.expiry
+//@   ensures result0 ==> forall n string :: n != unm(tx.Data, "RenewDomain").Name && !subOf(n, unm(tx.Data, "RenewDomain").Name) ==> domHas(ctx.Domains)[n] == old(domHas(ctx.Domains))[n] && dom(ctx.Domains)[n] == old(dom(ctx.Domains))[n] && domPrice(ctx.Domains)[n] == old(domPrice(ctx.Domains))[n]   // C20.others-untouched
+//@   ensures result0 ==> forall n string :: subOf(n, unm(tx.Data, "RenewDomain").Name) && n != unm(tx.Data, "RenewDomain").Name ==> domHas(ctx.Domains)[n] == old(domHas(ctx.Domains))[n] && sameButHeights(dom(ctx.Domains)[n], old(dom(ctx.Domains))[n]) && dom(ctx.Domains)[n].LastUpdateHeight == old(dom(ctx.Domains))[n].LastUpdateHeight && (dom(ctx.Domains)[n].SalePrice != nil ==> domPrice(ctx.Domains)[n] == old(domPrice(ctx.Domains))[n])   // C20.subs-only-expiry
+// FINDING: a sub-domain created earlier in the same block is not enumerated, keeps its old expiry and expires before its parent
+//@   claims result0 ==> forall n string :: subOf(n, unm(tx.Data, "RenewDomain").Name) && domHas(ctx.Domains)[n] ==> dom(ctx.Domains)[n].ExpireHeight == dom(ctx.Domains)[unm(tx.Data, "RenewDomain").Name].ExpireHeight   // C20.sub-expires-with-parent
+//@   invariant iter1: ctx == ctx0 && onsCtx(ctx0) && domain != nil && domain.ExpireHeight == dom(ctx0.Domains)[unm(tx0.Data, "RenewDomain").Name].ExpireHeight
+//@   invariant iter1: domHas(ctx0.Domains)[unm(tx0.Data, "RenewDomain").Name] && sameButHeights(dom(ctx0.Domains)[unm(tx0.Data, "RenewDomain").Name], old(dom(ctx0.Domains))[unm(tx0.Data, "RenewDomain").Name]) && (dom(ctx0.Domains)[unm(tx0.Data, "RenewDomain").Name].SalePrice != nil ==> domPrice(ctx0.Domains)[unm(tx0.Data, "RenewDomain").Name] == old(domPrice(ctx0.Domains))[unm(tx0.Data, "RenewDomain").Name]) && dom(ctx0.Domains)[unm(tx0.Data, "RenewDomain").Name].ExpireHeight == wrap64(old(dom(ctx0.Domains))[unm(tx0.Data, "RenewDomain").Name].ExpireHeight + wrap64(unm(tx0.Data, "RenewDomain").BuyingPrice.Value / onsPer(ctx0.GovernanceStore)))
+//@   invariant iter1: forall n string :: n != unm(tx0.Data, "RenewDomain").Name && !subOf(n, unm(tx0.Data, "RenewDomain").Name) ==> domHas(ctx0.Domains)[n] == old(domHas(ctx0.Domains))[n] && dom(ctx0.Domains)[n] == old(dom(ctx0.Domains))[n] && domPrice(ctx0.Domains)[n] == old(domPrice(ctx0.Domains))[n]
+//@   invariant iter1: forall n string :: subOf(n, unm(tx0.Data, "RenewDomain").Name) && n != unm(tx0.Data, "RenewDomain").Name ==> domHas(ctx0.Domains)[n] == old(domHas(ctx0.Domains))[n]
+//@   invariant iter1: forall n string :: subOf(n, unm(tx0.Data, "RenewDomain").Name) && n != unm(tx0.Data, "RenewDomain").Name ==> sameButHeights(dom(ctx0.Domains)[n], old(dom(ctx0.Domains))[n])
+//@   invariant iter1: forall n string :: subOf(n, unm(tx0.Data, "RenewDomain").Name) && n != unm(tx0.Data, "RenewDomain").Name ==> dom(ctx0.Domains)[n].LastUpdateHeight == old(dom(ctx0.Domains))[n].LastUpdateHeight && (dom(ctx0.Domains)[n].SalePrice != nil ==> domPrice(ctx0.Domains)[n] == old(domPrice(ctx0.Domains))[n])
+
+// ---------------------------------------------------------------- DOMAIN_UPDATE (C20 owner-only, C04)
+
+// sameButActive(a, b): records equal except for ActiveFlag
+//@ ghost func sameButActive(a ons.Domain, b ons.Domain) bool = a.Owner == b.Owner && a.Beneficiary == b.Beneficiary && a.Name == b.Name && a.CreationHeight == b.CreationHeight && a.LastUpdateHeight == b.LastUpdateHeight && a.ExpireHeight == b.ExpireHeight && a.OnSaleFlag == b.OnSaleFlag && a.URI == b.URI && (a.SalePrice == nil) == (b.SalePrice == nil)
+
+//@ func (domainUpdateTx).Validate
+//@   implements action.Tx
+//@   ensures result0 ==> len(tx.Signatures) == 1 && sigOK(rawBytesOf(tx.RawTx), unm(tx.Data, "DomainUpdate").Owner, tx.Signatures[0])   // C04.validate
+//@   exports len(sigs) == 1                                                                                                   // C04.validated-facts
+//@   exports raw.Fee.Price.Currency == ctx.FeePool.feeOpt.FeeCurrency.Name && raw.Fee.Price.Value >= 0                        // C04.validated-facts
+
+//@ func (domainUpdateTx).ProcessCheck
+//@   implements action.Tx
+//@   assumes domOK(ctx.Domains)                                                                                               // C20.store-invariant inductive: every ons body ensures it on success (failed transactions are discarded); genesis records assumed to satisfy it
+//@ func (domainUpdateTx).ProcessDeliver
+//@   implements action.Tx
+//@   assumes domOK(ctx.Domains)                                                                                               // C20.store-invariant inductive: every ons body ensures it on success (failed transactions are discarded); genesis records assumed to satisfy it
+//@ func (domainUpdateTx).ProcessFee
+//@   implements action.Tx
+
+//@ func runUpdate
+//@   requires onsCtx(ctx)                                                                                                     // C18.ctx
+//@   requires wfState(ctx.State) && sessOpen(ctx.State)                                                                       // C06.session
+//@   requires domOK(ctx.Domains)                                                                                              // C20.store-invariant
+//@   ensures result0 ==> domOK(ctx.Domains)                                                                                   // C20.store-invariant
+//@   ensures result0 ==> old(domHas(ctx.Domains))[unm(tx.Data, "DomainUpdate").Name] && str(old(dom(ctx.Domains))[unm(tx.Data, "DomainUpdate").Name].Owner) == str(unm(tx.Data, "DomainUpdate").Owner)   // C20.owner-only
+//@   ensures result0 ==> domHas(ctx.Domains)[unm(tx.Data, "DomainUpdate").Name] && idFields(dom(ctx.Domains)[unm(tx.Data, "DomainUpdate").Name], old(dom(ctx.Domains))[unm(tx.Data, "DomainUpdate").Name]) && dom(ctx.Domains)[unm(tx.Data, "DomainUpdate").Name].ExpireHeight == old(dom(ctx.Domains))[unm(tx.Data, "DomainUpdate").Name].ExpireHeight && dom(ctx.Domains)[unm(tx.Data, "DomainUpdate").Name].OnSaleFlag == old(dom(ctx.Domains))[unm(tx.Data, "DomainUpdate").Name].OnSaleFlag && (dom(ctx.Domains)[unm(tx.Data, "DomainUpdate").Name].SalePrice == nil) == (old(dom(ctx.Domains))[unm(tx.Data, "DomainUpdate").Name].SalePrice == nil) && (dom(ctx.Domains)[unm(tx.Data, "DomainUpdate").Name].SalePrice != nil ==> domPrice(ctx.Domains)[unm(tx.Data, "DomainUpdate").Name] == old(domPrice(ctx.Domains))[unm(tx.Data, "DomainUpdate").Name])   // C20.record-frame
+//@   ensures result0 ==> dom(ctx.Domains)[unm(tx.Data, "DomainUpdate").Name].Beneficiary == unm(tx.Data, "DomainUpdate").Beneficiary && dom(ctx.Domains)[unm(tx.Data, "DomainUpdate").Name].ActiveFlag == unm(tx.Data, "DomainUpdate").Active && dom(ctx.Domains)[unm(tx.Data, "DomainUpdate").Name].LastUpdateHeight == ctx.Header.Height && (len(unm(tx.Data, "DomainUpdate").Uri) > 0 ==> dom(ctx.Domains)[unm(tx.Data, "DomainUpdate").Name].URI == unm(tx.Data, "DomainUpdate").Uri)   // C20.update-effect
+//@   ensures result0 ==> forall n string :: n != unm(tx.Data, "DomainUpdate").Name && !subOf(n, unm(tx.Data, "DomainUpdate").Name) ==> domHas(ctx.Domains)[n] == old(domHas(ctx.Domains))[n] && dom(ctx.Domains)[n] == old(dom(ctx.Domains))[n] && domPrice(ctx.Domains)[n] == old(domPrice(ctx.Domains))[n]   // C20.others-untouched
+//@   ensures result0 ==> forall n string :: n != unm(tx.Data, "DomainUpdate").Name && subOf(n, unm(tx.Data, "DomainUpdate").Name) ==> domHas(ctx.Domains)[n] == old(domHas(ctx.Domains))[n] && sameButActive(dom(ctx.Domains)[n], old(dom(ctx.Domains))[n]) && (dom(ctx.Domains)[n].ActiveFlag ==> old(dom(ctx.Domains))[n].ActiveFlag) && (dom(ctx.Domains)[n].SalePrice != nil ==> domPrice(ctx.Domains)[n] == old(domPrice(ctx.Domains))[n])   // C20.subs-only-deactivated
+//@   ensures bal(ctx.Balances) == old(bal(ctx.Balances))                                                                      // C03.no-debit
+//@   invariant iter1: ctx == ctx0 && onsCtx(ctx0) && wfState(ctx0.State) && sessOpen(ctx0.State) && d != nil && d.Name == unm(tx0.Data, "DomainUpdate").Name && !d.ActiveFlag && !unm(tx0.Data, "DomainUpdate").Active && d.Beneficiary == unm(tx0.Data, "DomainUpdate").Beneficiary
+//@   invariant iter1: d.Owner == old(dom(ctx0.Domains))[unm(tx0.Data, "DomainUpdate").Name].Owner && d.CreationHeight == old(dom(ctx0.Domains))[unm(tx0.Data, "DomainUpdate").Name].CreationHeight && d.ExpireHeight == old(dom(ctx0.Domains))[unm(tx0.Data, "DomainUpdate").Name].ExpireHeight && d.OnSaleFlag == old(dom(ctx0.Domains))[unm(tx0.Data, "DomainUpdate").Name].OnSaleFlag && d.URI == old(dom(ctx0.Domains))[unm(tx0.Data, "DomainUpdate").Name].URI && (d.SalePrice == nil) == (old(dom(ctx0.Domains))[unm(tx0.Data, "DomainUpdate").Name].SalePrice == nil) && (d.SalePrice != nil ==> big(d.SalePrice) == old(domPrice(ctx0.Domains))[unm(tx0.Data, "DomainUpdate").Name])
+//@   invariant iter1: old(domHas(ctx0.Domains))[unm(tx0.Data, "DomainUpdate").Name] && str(old(dom(ctx0.Domains))[unm(tx0.Data, "DomainUpdate").Name].Owner) == str(unm(tx0.Data, "DomainUpdate").Owner)
+//@   invariant iter1: forall n string :: !(n != unm(tx0.Data, "DomainUpdate").Name && subOf(n, unm(tx0.Data, "DomainUpdate").Name)) ==> domHas(ctx0.Domains)[n] == old(domHas(ctx0.Domains))[n] && dom(ctx0.Domains)[n] == old(dom(ctx0.Domains))[n] && domPrice(ctx0.Domains)[n] == old(domPrice(ctx0.Domains))[n]
+//@   invariant iter1: forall n string :: n != unm(tx0.Data, "DomainUpdate").Name && subOf(n, unm(tx0.Data, "DomainUpdate").Name) ==> domHas(ctx0.Domains)[n] == old(domHas(ctx0.Domains))[n] && sameButActive(dom(ctx0.Domains)[n], old(dom(ctx0.Domains))[n])
+//@   invariant iter1: forall n string :: n != unm(tx0.Data, "DomainUpdate").Name && subOf(n, unm(tx0.Data, "DomainUpdate").Name) ==> (dom(ctx0.Domains)[n].ActiveFlag ==> old(dom(ctx0.Domains))[n].ActiveFlag) && (dom(ctx0.Domains)[n].SalePrice != nil ==> domPrice(ctx0.Domains)[n] == old(domPrice(ctx0.Domains))[n])
+
+// ---------------------------------------------------------------- DOMAIN_CREATE (C20 exclusive ownership + expiry, C02/C03 payment, C04)
+
+//@ func (domainCreateTx).Validate
+//@   implements action.Tx
+//@   ensures result0 ==> len(tx.Signatures) == 1 && sigOK(rawBytesOf(tx.RawTx), unm(tx.Data, "DomainCreate").Owner, tx.Signatures[0])   // C04.validate
+//@   exports len(sigs) == 1                                                                                                   // C04.validated-facts
+//@   exports raw.Fee.Price.Currency == ctx.FeePool.feeOpt.FeeCurrency.Name && raw.Fee.Price.Value >= 0                        // C04.validated-facts
+//@   exports payCurOK(ctx, unm(raw.Data, "DomainCreate").BuyingPrice.Currency)                                               // C20.validated-facts
+
+//@ func (domainCreateTx).ProcessCheck
+//@   implements action.Tx
+//@   assumes domOK(ctx.Domains)                                                                                               // C20.store-invariant inductive: every ons body ensures it on success (failed transactions are discarded); genesis records assumed to satisfy it
+//@ func (domainCreateTx).ProcessDeliver
+//@   implements action.Tx
+//@   assumes domOK(ctx.Domains)                                                                                               // C20.store-invariant inductive: every ons body ensures it on success (failed transactions are discarded); genesis records assumed to satisfy it
+//@ func (domainCreateTx).ProcessFee
+//@   implements action.Tx
+
+//@ func runCreate
+//@   safety C18
+//@   requires onsCtx(ctx)                                                                                                     // C18.ctx
+//@   requires wfState(ctx.State) && sessOpen(ctx.State)                                                                       // C06.session
+//@   requires domOK(ctx.Domains)                                                                                              // C20.store-invariant
+//@   ensures result0 ==> domOK(ctx.Domains)                                                                                   // C20.store-invariant
+//@   requires payCurOK(ctx, unm(tx.Data, "DomainCreate").BuyingPrice.Currency)                                                                         // C20.validated-facts
+//@   assumes ctx.FeePool.feeOpt.FeeCurrency.Name == ctx.Currencies.idMap[0].Name                                             // A-GENESIS the fee currency is the default currency (id 0)
+//@   ensures result0 ==> !old(domHas(ctx.Domains))[unm(tx.Data, "DomainCreate").Name]                                                                  // C20.create-fresh
+//@   ensures result0 ==> unm(tx.Data, "DomainCreate").BuyingPrice.Value > onsBase(ctx.GovernanceStore) && bal(ctx.Balances)[balKey(unm(tx.Data, "DomainCreate").Owner, unm(tx.Data, "DomainCreate").BuyingPrice.Currency)] == old(bal(ctx.Balances))[balKey(unm(tx.Data, "DomainCreate").Owner, unm(tx.Data, "DomainCreate").BuyingPrice.Currency)] - unm(tx.Data, "DomainCreate").BuyingPrice.Value   // C02.create-paid
+//@   ensures result0 ==> forall k string :: k != balKey(unm(tx.Data, "DomainCreate").Owner, unm(tx.Data, "DomainCreate").BuyingPrice.Currency) ==> bal(ctx.Balances)[k] == old(bal(ctx.Balances))[k]                   // C03.only-signer-debited
+//@   ensures result0 ==> balTotal(ctx.Balances)[unm(tx.Data, "DomainCreate").BuyingPrice.Currency] == old(balTotal(ctx.Balances))[unm(tx.Data, "DomainCreate").BuyingPrice.Currency] - unm(tx.Data, "DomainCreate").BuyingPrice.Value && feeTotal(ctx.FeePool) == old(feeTotal(ctx.FeePool)) + unm(tx.Data, "DomainCreate").BuyingPrice.Value && (forall c string :: c != unm(tx.Data, "DomainCreate").BuyingPrice.Currency ==> balTotal(ctx.Balances)[c] == old(balTotal(ctx.Balances))[c])   // C02.conserve
+//@   ensures result0 ==> fee(ctx.FeePool)["00000000000000000000"] == old(fee(ctx.FeePool))["00000000000000000000"] + unm(tx.Data, "DomainCreate").BuyingPrice.Value   // C02.create-paid
+//@   ensures result0 ==> domHas(ctx.Domains)[unm(tx.Data, "DomainCreate").Name] && dom(ctx.Domains)[unm(tx.Data, "DomainCreate").Name].Owner == unm(tx.Data, "DomainCreate").Owner && dom(ctx.Domains)[unm(tx.Data, "DomainCreate").Name].Name == unm(tx.Data, "DomainCreate").Name && dom(ctx.Domains)[unm(tx.Data, "DomainCreate").Name].CreationHeight == ctx.Header.Height && dom(ctx.Domains)[unm(tx.Data, "DomainCreate").Name].LastUpdateHeight == ctx.Header.Height && dom(ctx.Domains)[unm(tx.Data, "DomainCreate").Name].ActiveFlag && !dom(ctx.Domains)[unm(tx.Data, "DomainCreate").Name].OnSaleFlag && dom(ctx.Domains)[unm(tx.Data, "DomainCreate").Name].SalePrice == nil && dom(ctx.Domains)[unm(tx.Data, "DomainCreate").Name].URI == unm(tx.Data, "DomainCreate").Uri && nameValid(unm(tx.Data, "DomainCreate").Name)   // C20.create-record
+//@   ensures result0 ==> dom(ctx.Domains)[unm(tx.Data, "DomainCreate").Name].Beneficiary == (len(unm(tx.Data, "DomainCreate").Beneficiary) == 0 ? unm(tx.Data, "DomainCreate").Owner : unm(tx.Data, "DomainCreate").Beneficiary)                          // C20.create-record
+//@   ensures result0 && !nameIsSub(unm(tx.Data, "DomainCreate").Name) ==> dom(ctx.Domains)[unm(tx.Data, "DomainCreate").Name].ExpireHeight == wrap64(ctx.State.cs.Version + wrap64((unm(tx.Data, "DomainCreate").BuyingPrice.Value - onsBase(ctx.GovernanceStore)) / onsPer(ctx.GovernanceStore)))   // C20.expiry-int64
+// FINDING (replayed on the real handler): per-block fee 1, base 0, payment 2^63 -> extend = -2^63, ExpireHeight = Version - 2^63: the name is born expired
+//@   claims result0 && !nameIsSub(unm(tx.Data, "DomainCreate").Name) ==> dom(ctx.Domains)[unm(tx.Data, "DomainCreate").Name].ExpireHeight == ctx.State.cs.Version + (unm(tx.Data, "DomainCreate").BuyingPrice.Value - onsBase(ctx.GovernanceStore)) / onsPer(ctx.GovernanceStore)   // C20.expiry
+//@   ensures result0 && nameIsSub(unm(tx.Data, "DomainCreate").Name) ==> old(domHas(ctx.Domains))[parentOf(unm(tx.Data, "DomainCreate").Name)] && str(old(dom(ctx.Domains))[parentOf(unm(tx.Data, "DomainCreate").Name)].Owner) == str(unm(tx.Data, "DomainCreate").Owner)   // C20.sub-needs-parent-owner
+//@   ensures result0 && nameIsSub(unm(tx.Data, "DomainCreate").Name) ==> dom(ctx.Domains)[unm(tx.Data, "DomainCreate").Name].ExpireHeight == old(dom(ctx.Domains))[parentOf(unm(tx.Data, "DomainCreate").Name)].ExpireHeight   // C20.sub-expires-with-parent
+//@   ensures result0 ==> forall n string :: n != unm(tx.Data, "DomainCreate").Name ==> domHas(ctx.Domains)[n] == old(domHas(ctx.Domains))[n] && dom(ctx.Domains)[n] == old(dom(ctx.Domains))[n] && domPrice(ctx.Domains)[n] == old(domPrice(ctx.Domains))[n]   // C20.others-untouched
+
+// ---------------------------------------------------------------- DOMAIN_PURCHASE (C20 paid transfer, C02/C03, C04)
+//
+// onSaleBranch: the name is on sale and not expired (the buyer pays the asking price to the previous owner, the rest to the pool);
+// otherwise the handler only succeeds for an expired name (everything goes to the pool)
+//@ ghost func onSaleBranch(r ons.Domain, v int) bool = r.OnSaleFlag && v <= r.ExpireHeight
+
+//@ func (domainPurchaseTx).Validate
+//@   implements action.Tx
+//@   ensures result0 ==> len(tx.Signatures) == 1 && sigOK(rawBytesOf(tx.RawTx), unm(tx.Data, "DomainPurchase").Buyer, tx.Signatures[0])   // C04.validate
+//@   exports len(sigs) == 1                                                                                                   // C04.validated-facts
+//@   exports raw.Fee.Price.Currency == ctx.FeePool.feeOpt.FeeCurrency.Name && raw.Fee.Price.Value >= 0                        // C04.validated-facts
+//@   exports payCurOK(ctx, unm(raw.Data, "DomainPurchase").Offering.Currency)                                                // C20.validated-facts
+
+//@ func (domainPurchaseTx).ProcessCheck
+//@   implements action.Tx
+//@   assumes domOK(ctx.Domains)                                                                                               // C20.store-invariant inductive: every ons body ensures it on success (failed transactions are discarded); genesis records assumed to satisfy it
+//@ func (domainPurchaseTx).ProcessDeliver
+//@   implements action.Tx
+//@   assumes domOK(ctx.Domains)                                                                                               // C20.store-invariant inductive: every ons body ensures it on success (failed transactions are discarded); genesis records assumed to satisfy it
+//@ func (domainPurchaseTx).ProcessFee
+//@   implements action.Tx
+
+//@ func runPurchaseDomain
+//@   safety C18
+//@   requires onsCtx(ctx)                                                                                                     // C18.ctx
+//@   requires wfState(ctx.State) && sessOpen(ctx.State)                                                                       // C06.session
+//@   requires domOK(ctx.Domains)                                                                                              // C20.store-invariant
+//@   requires payCurOK(ctx, unm(tx.Data, "DomainPurchase").Offering.Currency)                                                                            // C20.validated-facts
+//@   assumes ctx.FeePool.feeOpt.FeeCurrency.Name == ctx.Currencies.idMap[0].Name                                             // A-GENESIS the fee currency is the default currency (id 0)
+//@   ensures result0 ==> domOK(ctx.Domains)                                                                                   // C20.store-invariant
+//@   ensures result0 ==> old(domHas(ctx.Domains))[unm(tx.Data, "DomainPurchase").Name] && !nameIsSub(unm(tx.Data, "DomainPurchase").Name)                                            // C20.purchase-guard
+//@   ensures result0 ==> (onSaleBranch(old(dom(ctx.Domains))[unm(tx.Data, "DomainPurchase").Name], ctx.State.cs.Version) && unm(tx.Data, "DomainPurchase").Offering.Value >= old(domPrice(ctx.Domains))[unm(tx.Data, "DomainPurchase").Name]) || (ctx.State.cs.Version > old(dom(ctx.Domains))[unm(tx.Data, "DomainPurchase").Name].ExpireHeight && unm(tx.Data, "DomainPurchase").Offering.Value >= onsBase(ctx.GovernanceStore))   // C20.purchase-guard
+//@   ensures result0 && onSaleBranch(old(dom(ctx.Domains))[unm(tx.Data, "DomainPurchase").Name], ctx.State.cs.Version) && balKey(unm(tx.Data, "DomainPurchase").Buyer, unm(tx.Data, "DomainPurchase").Offering.Currency) != balKey(old(dom(ctx.Domains))[unm(tx.Data, "DomainPurchase").Name].Owner, unm(tx.Data, "DomainPurchase").Offering.Currency) ==> bal(ctx.Balances)[balKey(unm(tx.Data, "DomainPurchase").Buyer, unm(tx.Data, "DomainPurchase").Offering.Currency)] == old(bal(ctx.Balances))[balKey(unm(tx.Data, "DomainPurchase").Buyer, unm(tx.Data, "DomainPurchase").Offering.Currency)] - unm(tx.Data, "DomainPurchase").Offering.Value && bal(ctx.Balances)[balKey(old(dom(ctx.Domains))[unm(tx.Data, "DomainPurchase").Name].Owner, unm(tx.Data, "DomainPurchase").Offering.Currency)] == old(bal(ctx.Balances))[balKey(old(dom(ctx.Domains))[unm(tx.Data, "DomainPurchase").Name].Owner, unm(tx.Data, "DomainPurchase").Offering.Currency)] + old(domPrice(ctx.Domains))[unm(tx.Data, "DomainPurchase").Name]   // C20.purchase-pays-owner
+//@   ensures result0 && onSaleBranch(old(dom(ctx.Domains))[unm(tx.Data, "DomainPurchase").Name], ctx.State.cs.Version) && balKey(unm(tx.Data, "DomainPurchase").Buyer, unm(tx.Data, "DomainPurchase").Offering.Currency) == balKey(old(dom(ctx.Domains))[unm(tx.Data, "DomainPurchase").Name].Owner, unm(tx.Data, "DomainPurchase").Offering.Currency) ==> bal(ctx.Balances)[balKey(unm(tx.Data, "DomainPurchase").Buyer, unm(tx.Data, "DomainPurchase").Offering.Currency)] == old(bal(ctx.Balances))[balKey(unm(tx.Data, "DomainPurchase").Buyer, unm(tx.Data, "DomainPurchase").Offering.Currency)] - unm(tx.Data, "DomainPurchase").Offering.Value + old(domPrice(ctx.Domains))[unm(tx.Data, "DomainPurchase").Name]   // C20.purchase-pays-owner
+//@   ensures result0 && onSaleBranch(old(dom(ctx.Domains))[unm(tx.Data, "DomainPurchase").Name], ctx.State.cs.Version) ==> forall k string :: k != balKey(unm(tx.Data, "DomainPurchase").Buyer, unm(tx.Data, "DomainPurchase").Offering.Currency) && k != balKey(old(dom(ctx.Domains))[unm(tx.Data, "DomainPurchase").Name].Owner, unm(tx.Data, "DomainPurchase").Offering.Currency) ==> bal(ctx.Balances)[k] == old(bal(ctx.Balances))[k]   // C02.others-untouched
+//@   ensures result0 && onSaleBranch(old(dom(ctx.Domains))[unm(tx.Data, "DomainPurchase").Name], ctx.State.cs.Version) ==> fee(ctx.FeePool)["00000000000000000000"] == old(fee(ctx.FeePool))["00000000000000000000"] + unm(tx.Data, "DomainPurchase").Offering.Value - old(domPrice(ctx.Domains))[unm(tx.Data, "DomainPurchase").Name]          // C02.purchase-rest-to-pool
+//@   ensures result0 && !onSaleBranch(old(dom(ctx.Domains))[unm(tx.Data, "DomainPurchase").Name], ctx.State.cs.Version) ==> bal(ctx.Balances)[balKey(unm(tx.Data, "DomainPurchase").Buyer, unm(tx.Data, "DomainPurchase").Offering.Currency)] == old(bal(ctx.Balances))[balKey(unm(tx.Data, "DomainPurchase").Buyer, unm(tx.Data, "DomainPurchase").Offering.Currency)] - unm(tx.Data, "DomainPurchase").Offering.Value && fee(ctx.FeePool)["00000000000000000000"] == old(fee(ctx.FeePool))["00000000000000000000"] + unm(tx.Data, "DomainPurchase").Offering.Value   // C20.purchase-expired-pays-pool
+//@   ensures result0 && !onSaleBranch(old(dom(ctx.Domains))[unm(tx.Data, "DomainPurchase").Name], ctx.State.cs.Version) ==> forall k string :: k != balKey(unm(tx.Data, "DomainPurchase").Buyer, unm(tx.Data, "DomainPurchase").Offering.Currency) ==> bal(ctx.Balances)[k] == old(bal(ctx.Balances))[k]   // C02.others-untouched
+//@   ensures result0 ==> forall k string :: bal(ctx.Balances)[k] < old(bal(ctx.Balances))[k] ==> k == balKey(unm(tx.Data, "DomainPurchase").Buyer, unm(tx.Data, "DomainPurchase").Offering.Currency)                    // C03.only-signer-debited
+//@   ensures result0 ==> balTotal(ctx.Balances)[unm(tx.Data, "DomainPurchase").Offering.Currency] + feeTotal(ctx.FeePool) == old(balTotal(ctx.Balances))[unm(tx.Data, "DomainPurchase").Offering.Currency] + old(feeTotal(ctx.FeePool)) && feeTotal(ctx.FeePool) >= old(feeTotal(ctx.FeePool)) && (forall c string :: c != unm(tx.Data, "DomainPurchase").Offering.Currency ==> balTotal(ctx.Balances)[c] == old(balTotal(ctx.Balances))[c])   // C02.conserve
+//@   ensures result0 ==> domHas(ctx.Domains)[unm(tx.Data, "DomainPurchase").Name] && dom(ctx.Domains)[unm(tx.Data, "DomainPurchase").Name].Owner == unm(tx.Data, "DomainPurchase").Buyer && dom(ctx.Domains)[unm(tx.Data, "DomainPurchase").Name].Beneficiary == unm(tx.Data, "DomainPurchase").Account && dom(ctx.Domains)[unm(tx.Data, "DomainPurchase").Name].Name == unm(tx.Data, "DomainPurchase").Name && dom(ctx.Domains)[unm(tx.Data, "DomainPurchase").Name].CreationHeight == old(dom(ctx.Domains))[unm(tx.Data, "DomainPurchase").Name].CreationHeight && !dom(ctx.Domains)[unm(tx.Data, "DomainPurchase").Name].OnSaleFlag && dom(ctx.Domains)[unm(tx.Data, "DomainPurchase").Name].SalePrice == nil && dom(ctx.Domains)[unm(tx.Data, "DomainPurchase").Name].ActiveFlag && dom(ctx.Domains)[unm(tx.Data, "DomainPurchase").Name].URI == "" && dom(ctx.Domains)[unm(tx.Data, "DomainPurchase").Name].LastUpdateHeight == ctx.State.cs.Version   // C20.purchase-reset
+//@   ensures result0 && onSaleBranch(old(dom(ctx.Domains))[unm(tx.Data, "DomainPurchase").Name], ctx.State.cs.Version) ==> dom(ctx.Domains)[unm(tx.Data, "DomainPurchase").Name].ExpireHeight == wrap64(old(dom(ctx.Domains))[unm(tx.Data, "DomainPurchase").Name].ExpireHeight + wrap64((unm(tx.Data, "DomainPurchase").Offering.Value - old(domPrice(ctx.Domains))[unm(tx.Data, "DomainPurchase").Name]) / onsPer(ctx.GovernanceStore)))   // C20.expiry-int64
+//@   ensures result0 && !onSaleBranch(old(dom(ctx.Domains))[unm(tx.Data, "DomainPurchase").Name], ctx.State.cs.Version) ==> dom(ctx.Domains)[unm(tx.Data, "DomainPurchase").Name].ExpireHeight == wrap64(ctx.State.cs.Version + wrap64((unm(tx.Data, "DomainPurchase").Offering.Value - onsBase(ctx.GovernanceStore)) / onsPer(ctx.GovernanceStore)))   // C20.expiry-int64
+// FINDINGS: same int64 truncation / wrap as in create; and (replayed on the real handlers) a sub-domain created earlier in the
+// same block survives the purchase, still owned and updatable by the previous owner
+//@   claims result0 && onSaleBranch(old(dom(ctx.Domains))[unm(tx.Data, "DomainPurchase").Name], ctx.State.cs.Version) ==> dom(ctx.Domains)[unm(tx.Data, "DomainPurchase").Name].ExpireHeight == old(dom(ctx.Domains))[unm(tx.Data, "DomainPurchase").Name].ExpireHeight + (unm(tx.Data, "DomainPurchase").Offering.Value - old(domPrice(ctx.Domains))[unm(tx.Data, "DomainPurchase").Name]) / onsPer(ctx.GovernanceStore)   // C20.expiry
+//@   claims result0 && !onSaleBranch(old(dom(ctx.Domains))[unm(tx.Data, "DomainPurchase").Name], ctx.State.cs.Version) ==> dom(ctx.Domains)[unm(tx.Data, "DomainPurchase").Name].ExpireHeight == ctx.State.cs.Version + (unm(tx.Data, "DomainPurchase").Offering.Value - onsBase(ctx.GovernanceStore)) / onsPer(ctx.GovernanceStore)   // C20.expiry
+//@   claims result0 ==> forall n string :: subOf(n, unm(tx.Data, "DomainPurchase").Name) && n != unm(tx.Data, "DomainPurchase").Name ==> !domHas(ctx.Domains)[n]                     // C20.subs-deleted
+//@   ensures result0 ==> forall n string :: n != unm(tx.Data, "DomainPurchase").Name && !subOf(n, unm(tx.Data, "DomainPurchase").Name) ==> domHas(ctx.Domains)[n] == old(domHas(ctx.Domains))[n]   // C20.others-untouched
+//@   ensures result0 ==> forall n string :: n != unm(tx.Data, "DomainPurchase").Name ==> dom(ctx.Domains)[n] == old(dom(ctx.Domains))[n] && domPrice(ctx.Domains)[n] == old(domPrice(ctx.Domains))[n] && (domHas(ctx.Domains)[n] ==> old(domHas(ctx.Domains))[n])   // C20.others-untouched
+
+// ---------------------------------------------------------------- Signers(): exactly one address, the field the body checks against the record's Owner (C04 / C20 owner-only)
+
+//@ func (DomainCreate).Signers
+//@   modifies nothing
+//@   ensures len(result) == 1 && result[0] == dc.Owner                    // C04.signers
+//@ func (DomainUpdate).Signers
+//@   modifies nothing
+//@   ensures len(result) == 1 && result[0] == du.Owner                    // C04.signers
+//@ func (DomainSale).Signers
+//@   modifies nothing
+//@   ensures len(result) == 1 && result[0] == s.OwnerAddress              // C04.signers
+//@ func (DomainPurchase).Signers
+//@   modifies nothing
+//@   ensures len(result) == 1 && result[0] == dp.Buyer                    // C04.signers
+//@ func (DomainSend).Signers
+//@   modifies nothing
+//@   ensures len(result) == 1 && result[0] == s.From                      // C04.signers
+//@ func (RenewDomain).Signers
+//@   modifies nothing
+//@   ensures len(result) == 1 && result[0] == r.Owner                     // C04.signers
+//@ func (DeleteSub).Signers
+//@   modifies nothing
+//@   ensures len(result) == 1 && result[0] == d.Owner                     // C04.signers
